@@ -19,7 +19,9 @@ EXTENDS Integers, Sequences, FiniteSets
 
 \* "aap" = control.advertise_allow_private: a boolean the loader keeps WITHOUT a was-it-set flag (a different storage shape from
 \* the other settings); observed only by the drivers that report it (eff may lack it)
-Settings == {"ttl", "port", "token", "pow", "dir", "persistent", "aap"}
+\* "minttl" / "maxttl" = node.min_ttl_seconds / node.max_ttl_seconds: two settings that form a window and are validated together --
+\* each still takes its value from its own highest layer (a flag for one bound does not hide the file's value for the other)
+Settings == {"ttl", "port", "token", "pow", "dir", "persistent", "aap", "minttl", "maxttl"}
 Booleans == {"persistent", "aap"}
 DefaultCode(s) == IF s \in Booleans THEN 2 ELSE 0
 
